@@ -31,7 +31,20 @@ def run_one(prop: str, tier: str, root: str, evidence_dir: str) -> int:
         scope_callers: set = set()
         try:
             try:
-                mod.run(ctx, rep)
+                # a rule that does not come to an end on some tree (a term that grows beyond what its matching was written for) is a
+                # rule that cannot decide that tree: stopped after a generous budget and reported like any other rule that gives up
+                import signal as _signal
+
+                def _too_long(signum, frame):
+                    raise TimeoutError(f"no verdict after {budget} s of analysis")
+                budget = int(os.environ.get("SA_RULE_BUDGET_S", "150"))
+                old_handler = _signal.signal(_signal.SIGALRM, _too_long)
+                _signal.alarm(budget)
+                try:
+                    mod.run(ctx, rep)
+                finally:
+                    _signal.alarm(0)
+                    _signal.signal(_signal.SIGALRM, old_handler)
             except (UnprovenScope, Unproven, AnalysisError):
                 raise
             except Exception as exc:  # noqa: BLE001
@@ -39,6 +52,7 @@ def run_one(prop: str, tier: str, root: str, evidence_dir: str) -> int:
                 # end there); on another tree it means the construct at that anchor is outside what the rule can reason about, which
                 # is "not proved for this tree" like every other unrecognised shape (DESIGN A.2 items 1 and 12): a finding, with the
                 # place in the rule that gave up.  (An unreadable tree, a vanished public anchor or a silent control stay exit 2.)
+                timed_out = isinstance(exc, TimeoutError)
                 tb = traceback.extract_tb(exc.__traceback__)
                 where = next((fr for fr in reversed(tb) if "/sa/rules/" in fr.filename), tb[-1])
                 traceback.print_exc()
@@ -61,7 +75,20 @@ def run_one(prop: str, tier: str, root: str, evidence_dir: str) -> int:
                 if any(isinstance(n, _ast.Call) and ((isinstance(n.func, _ast.Attribute) and n.func.attr == short) or
                                                      (isinstance(n.func, _ast.Name) and n.func.id == short)) for n in _ast.walk(fi.node)):
                     scope_callers.add(fq)
-        rep, ctx = second_chance(prop, mod, tier, root, rep, ctx, extra_targets=scope_callers)
+        if not locals().get("timed_out"):
+            import signal as _signal2
+
+            def _too_long2(signum, frame):
+                raise TimeoutError("no verdict within the analysis budget (second chance)")
+            _old2 = _signal2.signal(_signal2.SIGALRM, _too_long2)
+            _signal2.alarm(int(os.environ.get("SA_RULE_BUDGET_S", "150")))
+            try:
+                rep, ctx = second_chance(prop, mod, tier, root, rep, ctx, extra_targets=scope_callers)
+            except TimeoutError:
+                pass  # the first run's findings stand
+            finally:
+                _signal2.alarm(0)
+                _signal2.signal(_signal2.SIGALRM, _old2)
         from sa.rules.model import check_model
         check_model(ctx, rep)  # premises of the resolved-program model itself (whole package), part of every property's argument
         rep.analysed.update(ctx.analysed())
